@@ -122,7 +122,7 @@ impl Prop for C32 {
     type Scn = Scn;
     fn runs(tier: Tier) -> u64 {
         match tier {
-            Tier::Quick => 100_000,
+            Tier::Quick => 300_000,
             Tier::Thorough => 20_000_000,
         }
     }
